@@ -110,11 +110,14 @@ def run_child(workdir, job, wall_limit, fast=True):
 
 
 def read_progress(workdir):
+    """-> (index of the case that was running, placement letter) or (None, None)"""
     try:
         t = open(os.path.join(workdir, "progress")).read().split()
-        return int(t[0]) if t and t[0] != "done" else None
+        if t and t[0] != "done":
+            return int(t[0]), (t[1] if len(t) > 1 else "E")
     except Exception:  # noqa
-        return None
+        pass
+    return None, None
 
 
 def tail(workdir, n=600):
@@ -196,7 +199,7 @@ def diagnose(workdir, rc):
 NOT_VIOLATIONS = ("hang", "child-timeout", "memcpy-param-overlap")
 
 
-def report_death(acc, case, deep, tier, seed, kind, site, detail):
+def report_death(acc, case, deep, tier, seed, kind, site, detail, place):
     fam = C.FAMILIES[case[0]]
     grp = fam.group(case)
     mode = "deep" if deep else "plain"
@@ -204,9 +207,12 @@ def report_death(acc, case, deep, tier, seed, kind, site, detail):
         acc.observe("%s: %s in case %s (%s mode) - not a memory-safety verdict" % (kind, detail, short(list(case)), mode))
         acc.count("deaths_not_counted_as_violations")
         return
-    key = "C17/%s/%s/%s" % (site, kind, grp)
-    what = "case %s (%s mode; placement %s): %s" % (json.dumps(jsonish(case)), mode, C.place_of(case), detail)
-    acc.violation(key, what, {"case": list(case), "deep": bool(deep), "tier": tier, "seed": seed}, size=case_size(case))
+    # one native defect = one key: the native function and the kind of access; the Python-level entry point is
+    # part of the key only when the faulting frame is not inside one of the library's extensions
+    key = "C17/%s/%s" % (site, kind) if site != "?" else "C17/?/%s/%s" % (kind, grp)
+    what = "%s: case %s (%s mode; placement %s): %s" % (grp, json.dumps(jsonish(case)), mode, place, detail)
+    acc.violation(key, what, {"case": list(case), "deep": bool(deep), "tier": tier, "seed": seed, "place": place},
+                  size=2 * case_size(case) + (1 if deep else 0))        # simplest first; plain mode before deep mode
 
 
 def jsonish(x):
@@ -262,7 +268,7 @@ def _batch(acc, workdir, shards, tier, deep, seed):
                 acc.error("child of batch %s wrote a result but exited with %r" % (label, rc))
             break
         # the child died: which case was it in?
-        idx = read_progress(workdir)
+        idx, place = read_progress(workdir)
         if cases is None:
             cases = batch_cases(shards, tier)
         if idx is None or idx < start or idx >= len(cases):
@@ -271,7 +277,7 @@ def _batch(acc, workdir, shards, tier, deep, seed):
             break
         kind, site, detail = diagnose(workdir, rc)
         case = cases[idx]
-        report_death(acc, case, deep, tier, seed, kind, site, detail)
+        report_death(acc, case, deep, tier, seed, kind, site, detail, place)
         acc.count("child_deaths")
         acc.count("evaluations")
         counted = start
@@ -464,7 +470,8 @@ def run(ctx):
         "grid": {
             "lengths": "thorough: every 0..260, 511..513, 4095..4097, 8191..8193, 65536; quick: every 0..80, +-1 around "
                        "1,2,3,4,8 blocks and 64/128/136/144/168/256, 511..513, and the large ones for the primary classes",
-            "placements": "E: buffer ends at a PROT_NONE page; S: buffer starts after a PROT_NONE page (every alignment residue)",
+            "placements": "E: buffer ends at a PROT_NONE page; S: buffer starts after a PROT_NONE page; O (lengths that are a "
+                          "multiple of 8 only): buffer ends one byte before a PROT_NONE page, i.e. starts at an odd address",
             "aliasing": "returned / separate output same placement / opposite placement / output is input / output overlaps "
                         "input shifted by one block in both directions / output one byte too big / too small",
             "modes": "plain (library untouched) and deep (every buffer argument of every native call relocated to guard pages)",
@@ -499,15 +506,16 @@ def replay(case, acc):
         return
     workdir = tempfile.mkdtemp(prefix="c17r", dir=scratch_dir())
     try:
-        job = {"seed": seed, "tier": tier, "deep": deep, "shard": None, "cases": [_unbig(c)], "start": 0, "skip": []}
+        job = {"seed": seed, "tier": tier, "deep": deep, "shards": None, "cases": [_unbig(c)], "start": 0, "skip": [],
+               "place": case.get("place")}
         rc, res = run_child(workdir, job, 900, fast=False)
         if res is None:
-            idx = read_progress(workdir)
+            idx, place = read_progress(workdir)
             if idx != 0:
                 acc.error("replay child died before the case started (rc=%r): %s" % (rc, tail(workdir)))
                 return
             kind, site, detail = diagnose(workdir, rc)
-            report_death(acc, c, deep, tier, seed, kind, site, detail)
+            report_death(acc, c, deep, tier, seed, kind, site, detail, place)
         else:
             for h in res["harness"]:
                 acc.error("harness problem in replay child: %s" % h)
